@@ -39,7 +39,8 @@ ToSet(s) == {s[k] : k \in 1..Len(s)}
 Remove(s, x) == SelectSeq(s, LAMBDA y : y # x)
 
 \* ------------------------------------------------------------------ the queue, as pure steps on a record
-\* in : [jobs (listing order of the batch), hb (blockers handed over with the batch), flag, rc, depth]
+\* in : [jobs (listing order of the batch), hb (blockers handed over with the batch), flag, rc, depth,
+\*       nolaunch (jobs whose command cannot be started: Popen raises -- the exception leaves the queue, the runner dies)]
 \* q  : [queue, outst (order of the OrderedDict), nrem, run (started, process alive or exited but not yet seen),
 \*       exited (process exited, not yet seen by the queue), canc (canceled, sitting in outst), failed (failed_jobs of the
 \*       current _check_completions call), pc, ev]
@@ -48,19 +49,22 @@ Remove(s, x) == SelectSeq(s, LAMBDA y : y # x)
 InitQ(in) == [queue |-> <<>>, outst |-> <<>>, nrem |-> in.hb, run |-> {}, exited |-> {}, canc |-> {}, failed |-> {},
               pc |-> "submit", ev |-> <<>>]
 
-RunJob(q, j) == [q EXCEPT !.outst = Append(@, j), !.run = @ \cup {j}, !.ev = Append(@, <<"start", j, Len(q.outst) + 1>>)]
+RunJobIn(in, q, j) ==
+  IF j \in in.nolaunch THEN [q EXCEPT !.pc = "error"]
+  ELSE [q EXCEPT !.outst = Append(@, j), !.run = @ \cup {j}, !.ev = Append(@, <<"start", j, Len(q.outst) + 1>>)]
 
 RECURSIVE SubmitFrom(_, _, _)
 SubmitFrom(in, q, k) ==
-  IF k > Len(in.jobs) THEN [q EXCEPT !.pc = "scan"]
+  IF q.pc = "error" THEN q
+  ELSE IF k > Len(in.jobs) THEN [q EXCEPT !.pc = "scan"]
   ELSE LET j == in.jobs[k] IN
        IF Len(q.outst) >= in.depth \/ q.nrem[j] # {}
          THEN SubmitFrom(in, [q EXCEPT !.queue = Append(@, j)], k + 1)
-         ELSE SubmitFrom(in, RunJob(q, j), k + 1)
+         ELSE SubmitFrom(in, RunJobIn(in, q, j), k + 1)
 SubmitAll(in) == SubmitFrom(in, InitQ(in), 1)
 
 \* the loop condition of wait(): nothing outstanding and nothing queued -> the queue is finished
-Settle(q) == IF q.outst = <<>> /\ q.queue = <<>> THEN [q EXCEPT !.pc = "done"] ELSE q
+Settle(q) == IF q.pc # "error" /\ q.outst = <<>> /\ q.queue = <<>> THEN [q EXCEPT !.pc = "done"] ELSE q
 
 \* walk the queue for one completed name; acc = [queue (unchanged during the walk), nrem, cancels (seq)]
 RECURSIVE Walk(_, _, _, _, _)
@@ -102,21 +106,21 @@ Scan(in, q) ==
 
 RECURSIVE StartFrom(_, _, _, _)
 StartFrom(in, q, i, left) ==
-  IF left = 0 \/ i > Len(q.queue) THEN q
+  IF q.pc = "error" \/ left = 0 \/ i > Len(q.queue) THEN q
   ELSE LET j == q.queue[i] IN
        IF q.nrem[j] # {} THEN StartFrom(in, q, i + 1, left)
-       ELSE StartFrom(in, [RunJob(q, j) EXCEPT !.queue = Remove(@, j)], i, left - 1)
+       ELSE StartFrom(in, [RunJobIn(in, q, j) EXCEPT !.queue = Remove(@, j)], i, left - 1)
 Start(in, q) ==
   LET avail == in.depth - Len(q.outst)
       q1 == IF q.queue = <<>> \/ avail <= 0 THEN q ELSE StartFrom(in, q, 1, avail)
-  IN Settle([q1 EXCEPT !.pc = "scan"])
+  IN IF q1.pc = "error" THEN q1 ELSE Settle([q1 EXCEPT !.pc = "scan"])
 
 ExitJobs(q, X) == [q EXCEPT !.exited = @ \cup (X \cap q.run)]
 
 \* the deterministic run along a schedule: sched[k] = the jobs whose processes exit right before the k-th Scan
 RECURSIVE RunFrom(_, _, _)
 RunFrom(in, q, sched) ==
-  IF q.pc = "done" THEN q
+  IF q.pc \in {"done", "error"} THEN q
   ELSE IF q.pc = "start" THEN RunFrom(in, Start(in, q), sched)
   ELSE IF sched = <<>> THEN [q EXCEPT !.pc = "more"]        \* the schedule ends before the queue does
   ELSE RunFrom(in, Scan(in, ExitJobs(q, ToSet(Head(sched)))), Tail(sched))
@@ -179,9 +183,16 @@ AllInputs(n, maxfail, depths) ==
       H == {x \in [Js -> SUBSET Js] : Peel(x, Js)}
       RC == {r \in [Js -> {0, 1}] : Cardinality({j \in Js : r[j] # 0}) <= maxfail}
       FL == [Js -> BOOLEAN]
-  IN {[jobs |-> SubSeq(Names, 1, n), hb |-> c[1], flag |-> c[2], rc |-> c[3], depth |-> c[4]] : c \in H \X FL \X RC \X depths}
+  IN {[jobs |-> SubSeq(Names, 1, n), hb |-> c[1], flag |-> c[2], rc |-> c[3], depth |-> c[4], nolaunch |-> {}] : c \in H \X FL \X RC \X depths}
+\* ... and one job whose command cannot be started (all others succeed)
+NoLaunchInputs(n, depths) ==
+  LET Js == {Names[k] : k \in 1..n}
+      H == {x \in [Js -> SUBSET Js] : Peel(x, Js)}
+      FL == [Js -> BOOLEAN]
+  IN {[jobs |-> SubSeq(Names, 1, n), hb |-> c[1], flag |-> c[2], rc |-> [j \in Js |-> 0], depth |-> c[3], nolaunch |-> {c[4]}]
+        : c \in H \X FL \X depths \X Js}
 Inputs2 == AllInputs(1, 1, {1}) \cup AllInputs(2, 2, {1, 2})
-Inputs3 == Inputs2 \cup AllInputs(3, 3, {1, 2, 3})
+Inputs3 == Inputs2 \cup AllInputs(3, 3, {1, 2, 3}) \cup NoLaunchInputs(2, {1, 2}) \cup NoLaunchInputs(3, {1, 2, 3})
 Inputs4 == AllInputs(4, 1, {1, 2, 4})
 
 \* ------------------------------------------------------------------ machine: every input, every placement of the exits
@@ -194,18 +205,20 @@ MInit == cur \in Inputs /\ q = Settle(SubmitAll(cur)) /\ i = 0
 MExit == \E j \in q.run \ q.exited : q' = ExitJobs(q, {j})
 MScan == q.pc = "scan" /\ (q.exited # {} \/ q.canc # {} \/ q.run = {}) /\ q' = Scan(cur, q)
 MStart == q.pc = "start" /\ q' = Start(cur, q)
-MNext == q.pc # "done" /\ (MExit \/ MScan \/ MStart) /\ UNCHANGED <<cur, i>>
+MNext == q.pc \notin {"done", "error"} /\ (MExit \/ MScan \/ MStart) /\ UNCHANGED <<cur, i>>
 
 M_Safety == Mode = "machine" => SafetyClauses(cur, q.ev) = {}
 M_End == (Mode = "machine" /\ q.pc = "done") => EndClauses(cur, q.ev) = {}
 \* a queue that is not finished can always move (no job waits for ever): the only states without a successor are "done"
-M_NoDeadEnd == (Mode = "machine" /\ q.pc # "done") => (ENABLED MExit \/ ENABLED MScan \/ ENABLED MStart)
+M_NoDeadEnd == (Mode = "machine" /\ q.pc \notin {"done", "error"}) => (ENABLED MExit \/ ENABLED MScan \/ ENABLED MStart)
+\* the queue dies only because a command could not be started, and then nothing was started after that
+M_ErrorOnlyNoLaunch == (Mode = "machine" /\ q.pc = "error") => cur.nolaunch # {}
 \* the job processes alive never exceed the limit; canceled jobs pass through the outstanding list without a process
 M_Depth == Mode = "machine" => Cardinality(q.run) <= cur.depth
 \* progress (under fairness of the queue's own steps and of job exits): every run ends
 Keep == UNCHANGED <<cur, i>>
 MFair == WF_vars(MScan /\ Keep) /\ WF_vars(MStart /\ Keep) /\ WF_vars(MExit /\ Keep)
-M_Terminates == <>(q.pc = "done")
+M_Terminates == <>(q.pc \in {"done", "error"})
 
 \* ------------------------------------------------------------------ observations of the real JobQueue
 \* o.in, o.sched (sequence of sequences of job names), o.ev (observed events), o.rows (<<name, rc, status>> as read from the
@@ -215,12 +228,14 @@ RowsExpected(inx, ev) ==
   IN [k \in 1..Len(outcomes) |->
         IF outcomes[k][1] = "cancel" THEN <<outcomes[k][2], 1, "canceled">>
         ELSE <<outcomes[k][2], inx.rc[outcomes[k][2]], "finished">>]
-Norm(oin) == [oin EXCEPT !.hb = [j \in DOMAIN oin.hb |-> ToSet(oin.hb[j])]]      \* JSON lists -> sets
+Norm(oin) == [oin EXCEPT !.hb = [j \in DOMAIN oin.hb |-> ToSet(oin.hb[j])], !.nolaunch = ToSet(@)]      \* JSON lists -> sets
 Verdict(o) ==
   LET inx == Norm(o.in)
       r == Run(inx, o.sched) IN
   SafetyClauses(inx, o.ev)
-  \cup (IF o.end = "done" THEN EndClauses(inx, o.ev) ELSE {"NotCanceledRuns"})
+  \cup (IF o.end = "done" THEN EndClauses(inx, o.ev)
+        ELSE IF o.end = "error" /\ r.pc = "error" THEN {}          \* a command that cannot be started ends the runner
+        ELSE {"NotCanceledRuns"})
   \cup (IF o.rows = RowsExpected(inx, o.ev) THEN {} ELSE {"NodeRowsMatchOutcomes"})
   \cup (IF r.ev = o.ev /\ r.pc = o.end THEN {} ELSE {"DRIFT"})
 
